@@ -214,6 +214,7 @@ impl Check for C15 {
             SLOTS.len(),
             fixed_cases().len()
         );
+        ctx.rule.push_str("; `\\x` followed by every pair over the 95 printable ASCII characters, a line break and a multi-byte character, in plain and interpolated literals");
         let mut cases: Vec<Case> = vec![];
         let mut n_invalid = 0u64;
         // plain literals
